@@ -27,6 +27,14 @@ pub enum Trial {
         allowed_status: Vec<i32>,
         label: String,
     },
+    /// C16: exit status per input class and error accounting under display options.
+    /// specs[0] has no display option; `kinds[i]` says what specs[i] adds: "plain", "mute",
+    /// "codes:<list>", "cap:<n>".
+    ExitContract { specs: Vec<ExecSpec>, kinds: Vec<String>, class: String, exit_code: Option<i32>, label: String },
+    /// C16: invalid option combination: rejected with non-zero status before any output is written.
+    Rejected { spec: ExecSpec, label: String },
+    /// C07: every reported offset / quoted byte dump / quoted RDH row is truthful.
+    Truthful { spec: ExecSpec, label: String },
     /// C03: one well-framed input under several payload-handling paths.
     Scan { specs: Vec<ExecSpec>, label: String },
     /// C08: filtered writing for every distinct value of one filter kind.
@@ -252,6 +260,11 @@ impl Trial {
             Trial::Truncate { full, cuts, allowed_status, rows_mode, label } => {
                 run_truncate(ex, full, cuts, allowed_status, *rows_mode, label)
             }
+            Trial::ExitContract { specs, kinds, class, exit_code, label } => {
+                crate::t_exit::run_exit_contract(ex, specs, kinds, class, *exit_code, label)
+            }
+            Trial::Rejected { spec, label } => crate::t_exit::run_rejected(ex, spec, label),
+            Trial::Truthful { spec, label } => crate::t_stream::run_truthful(ex, spec, label),
             Trial::Scan { specs, label } => crate::t_stream::run_scan(ex, specs, label),
             Trial::FilterWrite { base, filters, to_file, label } => {
                 crate::t_stream::run_filter_write(ex, base, filters, *to_file, label)
@@ -272,6 +285,9 @@ impl Trial {
             Trial::EarlyStop { base, .. } => vec![base],
             Trial::Truncate { full, .. } => vec![full],
             Trial::Scan { specs, .. } => specs.iter_mut().collect(),
+            Trial::ExitContract { specs, .. } => specs.iter_mut().collect(),
+            Trial::Rejected { spec, .. } => vec![spec],
+            Trial::Truthful { spec, .. } => vec![spec],
             Trial::FilterWrite { base, .. } => vec![base],
             Trial::StatsTruth { spec, .. } => vec![spec],
         }
@@ -345,6 +361,11 @@ impl Trial {
             Trial::Conform { spec, label } => json!({"trial": "conform", "label": label, "exec": s(spec)}),
             Trial::EarlyStop { base, n_points, kind, label, .. } => json!({
                 "trial": "early-stop", "label": label, "stop_kind": format!("{kind:?}"), "stop_points": n_points, "exec": s(base)}),
+            Trial::ExitContract { specs, kinds, class, exit_code, label } => json!({
+                "trial": "exit-contract", "label": label, "input_class": class, "any_errors_exit_code": exit_code,
+                "runs": kinds, "exec": s(&specs[0])}),
+            Trial::Rejected { spec, label } => json!({"trial": "rejected", "label": label, "exec": s(spec)}),
+            Trial::Truthful { spec, label } => json!({"trial": "truthful", "label": label, "exec": s(spec)}),
             Trial::Scan { specs, label } => json!({
                 "trial": "scan", "label": label, "execs": specs.iter().map(|x| s(x)).collect::<Vec<_>>()}),
             Trial::FilterWrite { base, filters, to_file, label } => json!({
